@@ -19,7 +19,7 @@ RULE = ("worlds with three-phase mixed-sign constraint matrices (1-6 constraints
         "direction matrices (1-4 periods) scaled so that the most binding constraint sits at limit + k*tol, k in "
         "{-10,-2,-0.5,0.5,2,10}; non-trivial = probe within +-2 tolerances of a limit on a mixed-sign constraint with >=2 "
         "distinct phase angles; distinct = history signature + probe pattern")
-PROBES = ["probe", "non_finite_entry_probe", "probe_within_2tol_mixed_sign", "explicit_tolerances", "rel_tol_dominates", "linear_probe", "multi_period",
+PROBES = ["probe", "creeping_schedule_probe", "non_finite_entry_probe", "probe_within_2tol_mixed_sign", "explicit_tolerances", "rel_tol_dominates", "linear_probe", "multi_period",
           "negative_entries", "one_dim_vector", "constraint_free_world", "constraint_free_sorted_completed", "dict_omitted_rows",
           "executed_columns_checked", "invalid_schedule_warning_seen", "probe_after_reconfig", "exact_boundary_probe",
           "exactly_at_limit_plus_tol", "exact_linear_probe"]
@@ -227,6 +227,30 @@ def probe_once(out, sc, nw, iface, r, tag, cons):
                     out.add("C06/non_finite_accepted", "%s: %s check calls a schedule with %r at station %s (member of a constraint) feasible"
                             % (tag, kk, bad, ids[i]))
                     return
+    # a slowly creeping multi-period schedule: column j is column 0 scaled by (1 + j*4e-6); column 0 sits half a tolerance inside
+    # the most binding limit, the later columns are outside (each period is judged on its own, however little it differs
+    # from its neighbour)
+    rcp = sub(sc["seed"], "creep", tag, T)
+    if rcp.random() < 0.2 and not neg:
+        g0 = phasor.max_scale(cons, phases, [[row[0]] for row in D], vt, rt, -0.5)
+        if g0 is not None and g0 > 0:
+            Tc = rcp.choice([2, 3, 5])
+            MC = [[g0 * row[0] * (1 + j_ * 4e-6) for j_ in range(Tc)] for row in D]
+            mc, wc = phasor.margins(cons, phases, MC, vt, rt)
+            m0, _ = phasor.margins(cons, phases, [[x[0]] for x in MC], vt, rt)
+            scale_c = max(1.0, cons[wc[0]][1])
+            if m0 > 1e-9 * scale_c and mc < -1e-9 * scale_c:
+                out.probe("creeping_schedule_probe")
+                AC = np.array(MC, dtype=float)
+                dc = {ids[k]: list(MC[k]) for k in range(N)}
+                cres = {"network": bool(nw.is_feasible(AC, False, kw.get("violation_tolerance"), kw.get("relative_tolerance"))),
+                        "interface": bool(iface.is_feasible(dc, False, kw.get("violation_tolerance"), kw.get("relative_tolerance"))),
+                        "algorithm": bool(sut.algo_utils.infrastructure_constraints_feasible(AC, infra, False, vt, rt))}
+                for kk, v in cres.items():
+                    if v:
+                        out.add("C06/%s_vs_phasor" % kk, "%s: %s check accepts a %d-period schedule whose first period is feasible and whose later "
+                                "periods creep over the limit (worst margin %.3e A)" % (tag, kk, Tc, mc))
+                        return
     # linear relaxation: agreement + conservativeness (non-negative schedules)
     if not neg and r.random() < 0.6:
         out.probe("linear_probe")
